@@ -190,7 +190,14 @@ func (s *state) setup(ctx sdk.Context, st graph.M) {
 		case "cv":
 			base := app.AccountKeeper.NewAccountWithAddress(ctx, addr).(*authtypes.BaseAccount)
 			ov := sdk.NewCoins(sdk.NewCoin("uc4e", sdk.NewInt(graph.Num(a["ov"])).MulRaw(toU)))
+			_ = base.SetSequence(uint64(graph.Num(a["seq"])))
 			bva := vestingtypes.NewBaseVestingAccount(base, ov, timeOf(graph.Num(a["end"])).Unix())
+			if n := graph.Num(a["dv"]); n > 0 {
+				bva.DelegatedVesting = sdk.NewCoins(sdk.NewCoin("uc4e", sdk.NewInt(n).MulRaw(toU)))
+			}
+			if n := graph.Num(a["df"]); n > 0 {
+				bva.DelegatedFree = sdk.NewCoins(sdk.NewCoin("uc4e", sdk.NewInt(n).MulRaw(toU)))
+			}
 			app.AccountKeeper.SetAccount(ctx, vestingtypes.NewContinuousVestingAccountRaw(bva, timeOf(graph.Num(a["start"])).Unix()))
 		case "base":
 			app.AccountKeeper.SetAccount(ctx, app.AccountKeeper.NewAccountWithAddress(ctx, addr))
@@ -344,7 +351,9 @@ func apply(w *walk.Worker, ctx sdk.Context, e *graph.Edge, path []*graph.Edge, g
 			case "cv":
 				cv, ok := acc.(*vestingtypes.ContinuousVestingAccount)
 				if !ok || dayOf(time.Unix(cv.StartTime, 0)) != graph.Num(a["start"]) || dayOf(time.Unix(cv.EndTime, 0)) != graph.Num(a["end"]) ||
-					cv.OriginalVesting.AmountOf("uc4e").QuoRaw(toU).Int64() != graph.Num(a["ov"]) || cv.StartTime%86400 != env.T0.Unix()%86400 {
+					cv.OriginalVesting.AmountOf("uc4e").QuoRaw(toU).Int64() != graph.Num(a["ov"]) || cv.StartTime%86400 != env.T0.Unix()%86400 ||
+					cv.DelegatedVesting.AmountOf("uc4e").QuoRaw(toU).Int64() != graph.Num(a["dv"]) || cv.DelegatedFree.AmountOf("uc4e").QuoRaw(toU).Int64() != graph.Num(a["df"]) ||
+					int64(cv.GetSequence()) != graph.Num(a["seq"]) {
 					fail("mismatch", "upgrade.accounts", "vesting account "+n+" differs from the model", a, fmt.Sprintf("%v", acc))
 				}
 			}
